@@ -112,6 +112,8 @@ package common
 //@   modifies nothing
 //@   ensures [S1-utxo-wf] err == nil && result0 != nil ==> val(result0.Amount) > 0 && KeysNonNil(result0.Keys)
 //@   ensures [S2-utxo-in-ledger] err == nil && result0 != nil ==> LedgerHasTx(recv, hash) && index < LedgerOutCount(recv, hash) && result0.Type == LedgerOutType(recv, hash, index)
+//@   -- C01: a read returns THE amount and asset of the output stored under (hash, index): reads of one store value are deterministic
+//@   ensures [S11-utxo-fn] err == nil && result0 != nil ==> val(result0.Amount) == StoreAmount(recv, hash, index) && result0.Asset == StoreAsset(recv, hash, index)
 
 //@ assume func (s TransactionReader) ReadTransaction(hash)
 //@   modifies nothing
@@ -159,7 +161,7 @@ package common
 //@ spec SignedType(t mathint) bool = t == OutputTypeScript || t == OutputTypeNodeRemove
 
 //@ func (tx *SignedTransaction) validateInputs
-//@   property C05
+//@   property C05, C01
 //@   requires tx != nil && store != nil && InputsOK(&tx.Transaction)
 //@   modifies nothing
 //@   ensures [filter] UtxoMapOK(result0)
@@ -172,6 +174,16 @@ package common
 //@   loop 0 invariant [haskey] forall k int :: 0 <= k && k <= rangeindex ==> has(inputsFilter, InputKey(tx.Inputs[k]))
 //@   loop 0 invariant [inledger] forall k int :: 0 <= k && k <= rangeindex ==> InLedger(store, tx.Inputs[k])
 //@   loop 0 invariant len(keySigs) > 0 ==> exists k int :: 0 <= k && k <= rangeindex && SignedType(InputUtxoType(store, tx.Inputs[k]))
+//@   -- C01: the returned amount is the sum of the amounts the store holds for ALL inputs (all ordinary), each of the transaction's asset;
+//@   -- or it is the amount of the first non-ordinary input (mint / deposit), the inputs before it being ignored
+//@   ensures [c01-sum] err == nil && OrdInputs(&tx.Transaction) ==> val(result1) == SumIn(store, &tx.Transaction, len(tx.Inputs))
+//@   ensures [c01-asset] err == nil && OrdInputs(&tx.Transaction) ==> forall i int :: 0 <= i && i < len(tx.Inputs) ==> InputAssetIs(store, tx.Inputs[i], tx.Asset)
+//@   ensures [c01-special] err == nil ==> forall k int :: 0 <= k && k < len(tx.Inputs) && !OrdInput(tx.Inputs[k]) && (forall j int :: 0 <= j && j < k ==> OrdInput(tx.Inputs[j])) ==>
+//@       (tx.Inputs[k].Mint != nil ==> val(result1) == val(tx.Inputs[k].Mint.Amount)) &&
+//@       (tx.Inputs[k].Mint == nil ==> tx.Inputs[k].Deposit != nil && val(result1) == val(tx.Inputs[k].Deposit.Amount))
+//@   loop 0 invariant [c01-ord] forall j int :: 0 <= j && j <= rangeindex ==> OrdInput(tx.Inputs[j])
+//@   loop 0 invariant [c01-sum] val(inputAmount) == SumIn(store, &tx.Transaction, rangeindex + 1)
+//@   loop 0 invariant [c01-asset] forall j int :: 0 <= j && j <= rangeindex ==> InputAssetIs(store, tx.Inputs[j], tx.Asset)
 
 //@ -- OutKeysOld: the key arrays were allocated before the call (true of every object reachable from an argument; stated because the
 //@ -- engine otherwise cannot separate them from the slices the function allocates itself)
@@ -196,7 +208,7 @@ package common
 //@ spec DecodedShape(ver *VersionedTransaction) bool = InputsOK(&ver.Transaction) && OutputsOK(&ver.Transaction) && OutKeysOK(&ver.Transaction) && OutKeysOld(&ver.Transaction)
 
 //@ func (ver *VersionedTransaction) Validate
-//@   property C05
+//@   property C05, C01
 //@   requires ver != nil && store != nil && DecodedShape(ver) && snapTime >= CustodianGenesis(store)
 //@   requires [decoded] DecodedTx(&ver.SignedTransaction) -- proved for every decoded transaction by C06 (unmarshalVersionedTransaction)
 //@   requires [preexisting] OutsOK(&ver.Transaction) -- objects reachable from the argument exist before the call (typing)
@@ -204,11 +216,23 @@ package common
 //@   -- transaction, which no caller can observe). Assumed, not checked (noframe): used by the C31 batch loop.
 //@   modifies ver.hash, ver.pmbytes, ver.validatedSize
 //@   noframe
+//@   -- C01 (the property statement, clause by clause): an accepted transaction has inputs and outputs; either all inputs are ordinary
+//@   -- or the single input is a mint / deposit; every output amount is positive; the outputs add up to exactly the total input amount,
+//@   -- which is positive; every ordinary input is an output that exists in the ledger and has the transaction's asset.
+//@   ensures [c01-nonempty] err == nil ==> len(ver.Inputs) >= 1 && len(ver.Outputs) >= 1
+//@   ensures [c01-shape] err == nil ==> OrdInputs(&ver.Transaction) ||
+//@       (len(ver.Inputs) == 1 && len(ver.Inputs[0].Genesis) == 0 && (ver.Inputs[0].Mint != nil || ver.Inputs[0].Deposit != nil))
+//@   ensures [c01-positive] err == nil ==> forall a int :: 0 <= a && a < len(ver.Outputs) ==> val(ver.Outputs[a].Amount) > 0
+//@   ensures [c01-conserved] err == nil ==> SumOut(&ver.Transaction, len(ver.Outputs)) == TxInAmount(store, &ver.Transaction)
+//@   ensures [c01-input-positive] err == nil ==> TxInAmount(store, &ver.Transaction) > 0
+//@   ensures [c01-asset] err == nil ==> forall k int :: 0 <= k && k < len(ver.Inputs) && OrdInput(ver.Inputs[k]) ==>
+//@       InLedger(store, ver.Inputs[k]) && InputAssetIs(store, ver.Inputs[k], ver.Asset)
 
 // ───────────── type-specific validators ─────────────
 
 //@ func (tx *VersionedTransaction) validateMint
-//@   property C05
+//@   property C05, C01
+//@   ensures [c01-one-input] result == nil ==> len(tx.Inputs) == 1 -- no ordinary input hides before the mint input
 //@   requires tx != nil && store != nil && InputsOK(&tx.Transaction) && OutputsOK(&tx.Transaction)
 //@   requires [payload-ok] TxPayloadOK(&tx.SignedTransaction.Transaction) -- PayloadHash (C06)
 //@   requires [mint-input] len(tx.Inputs) == 1 ==> tx.Inputs[0].Mint != nil
@@ -230,7 +254,8 @@ package common
 //@   modifies nothing
 
 //@ func (tx *SignedTransaction) validateDeposit
-//@   property C05
+//@   property C05, C01
+//@   ensures [c01-one-input] result == nil ==> len(tx.Inputs) == 1 -- no ordinary input hides before the deposit input
 //@   requires tx != nil && store != nil && InputsOK(&tx.Transaction) && OutputsOK(&tx.Transaction) && snapTime >= CustodianGenesis(store)
 //@   requires [deposit-input] len(tx.Inputs) == 1 ==> tx.Inputs[0].Deposit != nil
 //@   modifies nothing
